@@ -41,8 +41,10 @@ static VectorNd project(Ctx &C, const VectorNd &q, const VectorNd &qd) {
   return qd - G.transpose() * solve_consistent(A, b);
 }
 
+bool run_curves(Ctx &C, const std::string &cmd, Toks &T, long seq);
 bool run_ext(Ctx &C, const std::string &cmd, Toks &T, long seq) {
   Model &m = *C.model;
+  if (run_curves(C, cmd, T, seq)) return true;
   if (cmd == "csolver") { long k = T.integer(); E(C).cs.linear_solver = (LinearSolver)k; return true; }
   if (cmd == "contact") {
     unsigned id = C.ref(T.str()); Vector3d p = T.v3(), n = T.v3();
